@@ -74,6 +74,10 @@ def propagate(p, s):
     return s
 
 
+def astq_is_node(x):
+    return isinstance(x, dict) and 'k' in x
+
+
 def first_cond(s):
     """outermost conditional expression (c ? a : b) with a non-constant condition inside statement s, or None"""
     from astq import walk as _walk
@@ -154,8 +158,24 @@ def paths(stmt, limit=4096, record_conds=False):
                 p.events.append(('loop', s))
             return done + live
         if k == 'Return':
+            # `return c ? a : b;` is `if (c) return a; else return b;`
+            cnd = first_cond(s) if astq_is_node(s.get('e')) else None
+            if cnd is not None and split_depth[0] < 6:
+                split_depth[0] += 1
+                try:
+                    out = []
+                    for p in live:
+                        for arm, taken in (('t', True), ('f', False)):
+                            q = p.copy()
+                            q.conds.append((cnd['c'], taken))
+                            if record_conds:
+                                q.events.append(('cond', cnd['c'], taken))
+                            out += rec(replace_node(s, cnd, cnd[arm]), [q])
+                    return done + out
+                finally:
+                    split_depth[0] -= 1
             for p in live:
-                p.events.append(s)
+                p.events.append(propagate(p, s) if p.env else s)
                 p.returned = True
             return done + live
         if k == 'Switch':
